@@ -7,11 +7,19 @@ the `wait` builtin and `check_for_completed_jobs`).  Quantifiers: every job tabl
 already completed tasks, every completion schedule (any order, any length), every history of
 launches / completions / polls / waits / queries of any length.
 
-What is proved is the bookkeeping: `wait` returns exactly when every task of every job has
-completed, reports and removes every job once, never drops a job whose work is unfinished; live job
-numbers are distinct on poll-free histories (`_partial`; the full statement is false for the
-`len + 1` numbering, `ids_distinct_full_cex`) and on all histories for the `max + 1` numbering
-(`ids_distinct_fixed`).  That a completed tokio task's effects are visible to the foreground is a
+What is proved is the bookkeeping:
+* `wait_all_returns_only_after_all_finished`, `wait_all_returns_when_all_finish`,
+  `wait_all_returns_at_once_when_all_finished`, `wait_all_blocks_while_a_job_is_unfinished` — `wait`
+  returns exactly when every task of every job has completed, reports every job once, empties the table;
+* `ids_distinct_full_cex` / `ids_distinct_partial` (guard `NoPoll`) / `ids_distinct_fixed` — live job
+  numbers: false for the code's `len + 1` numbering once the between-commands poll has removed a job,
+  true on poll-free histories, true on all histories for the `max + 1` numbering;
+  `job_number_addresses_its_job` — with distinct numbers `%N` names exactly job `N`;
+* `current_mark_unique`, `previous_mark_unique_cex` — one current job at most; the previous mark is not unique;
+* `no_job_lost_or_removed_early`, `wait_returns_with_all_launched_work_done` — over whole histories no
+  job is lost, duplicated, or removed before all its tasks completed, and after a returning `wait`
+  everything launched so far is complete.
+That a completed tokio task's effects (file writes, output) are visible to the foreground is a
 runtime fact, observed end to end (marker files), not proved.
 -/
 namespace BrushVerif.C17
@@ -48,6 +56,13 @@ theorem wait_all_returns_when_all_finish (t : Table) (fin sched : List Nat)
   · rename_i hn; simp [hn] at this
   · rfl
 
+/-- **`wait` does not wait longer than needed**: when every job has already finished it returns at
+once, without any further completion having to happen. -/
+theorem wait_all_returns_at_once_when_all_finished (t : Table) (fin sched : List Nat)
+    (h : ∀ j ∈ t, ∀ k ∈ j.tasks, k ∈ fin) :
+    waitAll t fin sched = some ([], t.map cleared, fin, sched) := by
+  simp only [waitAll, waitJobs_of_mem sched h, sweep_cleared]
+
 /-- **`wait` blocks for as long as some job is unfinished**: a task that neither has completed nor
 ever completes keeps it from returning. -/
 theorem wait_all_blocks_while_a_job_is_unfinished (t : Table) (fin sched : List Nat) (j : Job) (k : Nat)
@@ -69,6 +84,14 @@ example :
     let j (i : Nat) (ts : List Nat) : Job := { id := i, ann := .none, state := .running, tasks := ts, tag := i, orig := ts }
     waitAll [j 1 [1], j 2 [2, 3], j 3 [4]] [] [4, 2, 9, 1, 3, 7] =
       some ([], [cleared (j 1 [1]), cleared (j 2 [2, 3]), cleared (j 3 [4])], [3, 1, 9, 2, 4], [7]) := by
+  decide
+
+/-- the second job's task is neither completed nor scheduled: `wait` never returns; and with
+everything completed beforehand it returns without consuming the schedule -/
+example :
+    let j (i : Nat) (ts : List Nat) : Job := { id := i, ann := .none, state := .running, tasks := ts, tag := i, orig := ts }
+    waitAll [j 1 [1], j 2 [2]] [] [1, 5] = none ∧
+    waitAll [j 1 [1], j 2 [2]] [2, 1] [5] = some ([], [cleared (j 1 [1]), cleared (j 2 [2])], [2, 1], [5]) := by
   decide
 
 /-! ## live jobs carry distinct job numbers -/
@@ -162,6 +185,36 @@ theorem ids_distinct_fixed (ops : List Op) : IdsDistinct (run (init .maxPlus1) o
 
 example : ids (run (init .maxPlus1) dupWitness).table = [2, 3, 4] := by decide
 
+/-- **a job number names its job**: when live numbers are distinct (poll-free histories, or the
+repaired numbering), `%N` resolves to exactly the job carrying number `N` — every live job can be
+waited for / killed / foregrounded by its number. -/
+theorem job_number_addresses_its_job (t : Table) (h : (ids t).Nodup) (j : Job) (hj : j ∈ t) :
+    ∃ i, resolveIdx t (.num j.id) = some i ∧ t[i]? = some j := by
+  obtain ⟨n, hn, rfl⟩ := List.getElem_of_mem hj
+  have hex : ∃ x, x ∈ t ∧ decide (x.id = t[n].id) = true := ⟨t[n], hj, by simp⟩
+  have hlt := List.findIdx_lt_length_of_exists hex
+  have hp := List.findIdx_getElem (w := hlt)
+  simp only [decide_eq_true_eq] at hp
+  have hi : (ids t)[List.findIdx (fun x => decide (x.id = t[n].id)) t]'(by simpa [ids] using hlt) =
+      (ids t)[n]'(by simpa [ids] using hn) := by simpa [ids] using hp
+  have := (List.getElem_inj h).mp hi
+  refine ⟨n, ?_, by simp [hn]⟩
+  simp only [resolveIdx]
+  rw [this]
+  simp [hn]
+
+example :
+    let t := (run (init .maxPlus1) dupWitness).table
+    (ids t).Nodup ∧ t.length = 3 ∧ resolveIdx t (.num 4) = some 2 := by
+  decide
+
+/-- with the code's numbering the newest job of `dupWitness` cannot be addressed by its number:
+`%3` names the older job 3 -/
+example :
+    let t := (run (init .lenPlus1) dupWitness).table
+    t.map (fun j => (j.id, j.tag)) = [(2, 2), (3, 3), (3, 4)] ∧ resolveIdx t (.num 3) = some 1 := by
+  decide
+
 /-! ## current / previous marks -/
 
 private theorem cur_step {s s' : St} {b : Bool} (h : StepRel s b s')
@@ -186,6 +239,9 @@ theorem current_mark_unique (r : IdRule) (ops : List Op) :
     (anns (run (init r) ops).table).count .current ≤ 1 :=
   run_invariant (fun s => (anns s.table).count .current ≤ 1) (fun s op hi => cur_step (step_rel s op) hi)
     ops _ (by simp [anns, init])
+
+example : anns (run (init .lenPlus1) [.launch 1 false, .launch 1 false, .finish 2, .poll, .launch 1 false,
+    .waitSpec .prev [1]]).table = [.previous, .current] := by decide
 
 /-- the same for the previous mark (`%-`) is **false**: `add_as_current` demotes the current job
 without clearing the older previous mark (bash keeps exactly one `-`). -/
